@@ -163,6 +163,7 @@ func cmdCheck(args []string) int {
 		if e.MaxThreads > 0 {
 			cfg.MaxThreads = e.MaxThreads
 		}
+		cfg.UnstableSort = e.UnstableSort
 		if e.Fuel > 0 {
 			cfg.Fuel = e.Fuel
 		}
@@ -323,7 +324,7 @@ func (eng *Engine) confirm(spec *CheckSpec, e EntrySpec, fn *ssa.Function, rf *r
 	if !got {
 		return false, "symgo concrete replay gave " + res.Status + " " + res.Msg
 	}
-	if len(rf.Schedule) > 0 || noNative || e.NoNative || rf.Label == "no-deadlock" || os.Getenv("VERIF_NO_NATIVE") != "" {
+	if len(rf.Schedule) > 0 || noNative || e.NoNative || e.UnstableSort || rf.Label == "no-deadlock" || os.Getenv("VERIF_NO_NATIVE") != "" {
 		return true, "symgo-concrete"
 	}
 	conc := map[string]string{}
